@@ -285,6 +285,7 @@ func c03Exhaustive(t *testing.T) {
 				if (ci+li)%5 == 0 {
 					c.Wrapper = "dsse"
 				}
+				hx.Journal("C03", "programs", c)
 				refErr, implErr, panicked := c03Verdict(c)
 				evals++
 				if refErr == nil {
@@ -415,7 +416,9 @@ func c03GenRule(t *rapid.T, paths []string, names []string) []string {
 	case 12:
 		// malformed
 		return rapid.SampledFrom([][]string{{}, {"ALLOW"}, {"ALLOW", "a", "b"}, {"PERMIT", "*"}, {"MATCH", "*"}, {"MATCH", "*", "WITH", "PRODUCTS", "dst"},
-			{"MATCH", "*", "WITH", "ARTIFACTS", "FROM", "dst"}, {"MATCH", "*", "IN", "d1", "WITH", "PRODUCTS", "FROM"}, {"MATCH", "*", "FROM", "dst", "WITH", "PRODUCTS"}, {""}, {"", "*"}}).Draw(t, "malformed")
+			{"MATCH", "*", "WITH", "ARTIFACTS", "FROM", "dst"}, {"MATCH", "*", "IN", "d1", "WITH", "PRODUCTS", "FROM"}, {"MATCH", "*", "FROM", "dst", "WITH", "PRODUCTS"}, {""}, {"", "*"},
+			{"MATCH", "*", "IN", "d1", "WITH", "PRODUCTS"}, {"MATCH", "*", "WITH", "PRODUCTS", "IN", "d1"}, {"MATCH", "*", "IN", "d1", "WITH", "MATERIALS", "IN", "d2"},
+			{"MATCH", "*", "WITH", "PRODUCTS"}, {"MATCH", "*", "IN", "d1"}, {"MATCH", "*", "IN", "d1", "WITH", "PRODUCTS", "IN", "d2", "FROM"}}).Draw(t, "malformed")
 	default:
 		return []string{kw("ALLOW"), "*"}
 	}
